@@ -171,15 +171,32 @@ def _rules(ck, prog, cfg):
     # delta items: Option<Result<ReplicationDelta, _>> from Iterator::next -> Some -> Result discriminant
     for sb in sorted(fn.reachable_blocks()):
         si = switch_info(fn, sb)
-        if si and si["kind"] == "discr" and si["ty"].startswith("std::result::Result<replication::state::delta::ReplicationDelta"):
+        if si and si["kind"] == "discr" and (si["ty"].startswith("std::result::Result<replication::state::delta::ReplicationDelta") or
+                                             si["ty"].startswith("std::result::Result<std::vec::Vec<replication::state::delta::ReplicationDelta")):
             fails.append(("delta-decode-failed", sb, edge_targets(fn, sb, 0), edge_targets(fn, sb, 1), fn.term(sb)["ln"]))
+    # the only failure that may schedule a segment for removal: the object does not exist (ErrorKind::NotFound)
+    notfound_true = set()
+    for sb in sorted(fn.reachable_blocks()):
+        si = switch_info(fn, sb)
+        if si and si["kind"] == "val" and si["src"].kind == "call" and is_callee(si["src"].term, r"io::ErrorKind as std::cmp::PartialEq>::eq$"):
+            ops = [src_of_operand(fn, a, through_calls=TRANSPARENT) for a in si["src"].term["args"]]
+            kinds = [o for o in ops if o.kind == "call" and is_callee(o.term, r"std::io::Error::kind$")]
+            consts = [o for o in ops if o.kind == "const" and (o.pv or "").endswith("ErrorKind::NotFound")]
+            if kinds and consts:
+                for v, tg in fn.term(sb)["cases"]:
+                    pass
+                t_ = fn.term(sb)
+                tr = [tg for v, tg in t_["cases"] if v == "1"] or ([t_["else"]] if [v for v, _ in t_["cases"]] == ["0"] else [])
+                notfound_true.update(tr)
     ck.floor("R13.5-failure-edges" + _tag(cfg), len(fails), 4)
     for what, swb, okt, errt, ln in fails:
         # a push reachable from the error edge *within the same segment iteration* (before the next store.get)
         gets_b = {b for b, t in fn.calls() if is_callee(t, r"object_store::ObjectStore>::get$")}
         hit = None
         for pb, pt in pushes:
-            path = lib2.path_avoiding(fn, errt, lambda x, pb=pb: x == pb, lambda x: x in gets_b or (x == okt and what != "delta-decode-failed"), (), from_succ=False)
+            path = lib2.path_avoiding(fn, errt, lambda x, pb=pb: x == pb,
+                                      lambda x: x in gets_b or (x == okt and what != "delta-decode-failed") or (what == "segment-get-failed" and x in notfound_true),
+                                      (), from_succ=False)
             if path is not None:
                 hit = (pb, pt)
         ck.check(hit is None, "R13.5", "compact:%s%s" % (what, _tag(cfg)),
